@@ -486,6 +486,11 @@ func checkC10(c *hx.Ctx) {
 				vals := append(append([]interface{}{}, mutVals...), lookup(others[vi].req, path))
 				if orig, isStr := lookup(v.req, path).(string); isStr && orig != "" {
 					// encodings of the same bytes that are not the canonical unpadded base64url text
+					if raw, err := ref.UnB64(orig); err == nil && len(raw) > 12 && (raw[0] == 0x12 || raw[0] == 0x13) {
+						// byte strings that merely START like a multihash of an allowed algorithm
+						vals = append(vals, ref.B64(raw[:12]), ref.B64(append(append([]byte{}, raw...), 1, 2, 3, 4, 5, 6, 7, 8)), ref.B64(raw[:1]), ref.B64(raw[:2]),
+							ref.B64(append([]byte{raw[0], raw[1] + 1}, raw[2:]...)), ref.B64(append([]byte{raw[0], 0}, raw[2:]...)))
+					}
 					vals = append(vals, orig+"=", orig+"==", orig+"\n", orig[:1]+"\r\n"+orig[1:], " "+orig, strings.Replace(strings.Replace(orig, "-", "+", -1), "_", "/", -1))
 				}
 				for _, mv := range vals {
